@@ -37,7 +37,7 @@ ASSUMPTIONS = ["tolerances of DESIGN.md sec. 1.6; solver tolerance_mva scaled wi
                "both sides are pandapower power flows (differential property by definition)"]
 
 PROFILE = netgen.profile(nb_max=9, nb_level=(1, 4), oos=0, open_prob=0.0, dcline=False, extra_branches=(0, 2),
-                         bus_kinds={"load": 5, "sgen": 3, "gen": 2, "storage": 2, "shunt": 1, "ward": 1, "xward": 0,
+                         bus_kinds={"load": 5, "sgen": 3, "gen": 3, "storage": 2, "shunt": 1, "ward": 1, "xward": 0,
                                     "motor": 0, "asymmetric_load": 0, "asymmetric_sgen": 0},
                          sn_choices=(1.0, 1.0, 10.0, 100.0))
 
@@ -68,6 +68,10 @@ PAIRS = [("load", "p_mw"), ("load", "q_mvar"), ("load", "scaling"), ("sgen", "p_
          ("gen", "p_mw"), ("gen", "vm_pu"), ("ext_grid", "vm_pu"), ("ext_grid", "va_degree"),
          ("trafo", "tap_pos"), ("trafo3w", "tap_pos"),
          ("line", "length_km"), ("line", "r_ohm_per_km"), ("line", "in_service")]
+
+
+RECYCLE_CLASS = {"load": "pq", "sgen": "pq", "storage": "pq", "gen": "gen", "ext_grid": "gen", "trafo": "trafo",
+                 "trafo3w": "trafo", "line": "line"}
 
 
 def _ordinals(recipe, t):
@@ -156,6 +160,16 @@ def _log_selection(draw, recipe, kind):
         if kind == "mixed" and present[t] and _rare(draw, 6):
             idx = draw(st.lists(st.integers(0, present[t] - 1), min_size=1, max_size=3, unique=True))
         out.append({"t": t, "c": c, "idx": idx})
+    if kind == "mixed" and _rare(draw, 8):
+        # the same column requested twice with different index subsets (documented: the indices are merged)
+        cand = [l for l in out if present[l["t"]] >= 2]
+        if cand:
+            l = draw(st.sampled_from(cand))
+            a = draw(st.integers(0, present[l["t"]] - 1))
+            b = draw(st.integers(0, present[l["t"]] - 2))
+            b = b + 1 if b >= a else b
+            l["idx"] = [a]
+            out.append({"t": l["t"], "c": l["c"], "idx": [b]})
     return out
 
 
@@ -179,7 +193,7 @@ def _flags(draw, recipe):
 @st.composite
 def _case(draw, tier):
     recipe = draw(_flags(draw(netgen.grid(PROFILE))))
-    run = draw(st.sampled_from(["runpp"] * 4 + ["rundcpp"]))
+    run = draw(st.sampled_from(["runpp"] * 3 + ["rundcpp"]))
     recycle = draw(st.sampled_from([None, None, None, None, None, False]))
     # the reported defect shapes are left out in most cases so that the search goes on behind them
     if recycle is False:
@@ -193,6 +207,12 @@ def _case(draw, tier):
         recipe["el"].append({"t": "load", "bus": 0, "p_mw": round(netgen.LEVELS[recipe["buses"][0]["vn_kv"]]["s"] * 0.1, 6),
                              "q_mvar": 0.0})
         pairs = [("load", "p_mw")]
+    # half of the cases drive one recycle class only (PQ elements | gen/ext_grid | transformers | lines), so that
+    # every single recycle flag (bus_pq / gen / trafo) is exercised on its own and not only in combinations
+    classes = sorted({RECYCLE_CLASS[p[0]] for p in pairs})
+    if len(classes) > 1 and draw(st.sampled_from([0, 1])):
+        cls = draw(st.sampled_from(classes))
+        pairs = [p for p in pairs if RECYCLE_CLASS[p[0]] == cls]
     chosen = draw(st.lists(st.sampled_from(pairs), min_size=1, max_size=min(4, len(pairs)), unique=True))
     rows = draw(st.integers(2, 6))
     ctrls = []
@@ -307,6 +327,24 @@ def _run_pf(pp, net, case, sn):
         pp.runpp(net, tolerance_mva=pf_tol(sn), **case["pf"])
 
 
+def _make_output_writer(OutputWriter, net, case, maps):
+    def labels(l):
+        lab = maps["bus"] if l["t"] == "res_bus" else maps.get(l["t"][4:], [])
+        return [lab[k] for k in l["idx"]]
+    if case["log_mode"] == "default":
+        return OutputWriter(net, output_path=None)
+    if case["log_mode"] == "ctor":
+        lv = [(l["t"], l["c"]) if l["idx"] is None else (l["t"], l["c"], labels(l)) for l in case["log"]]
+        return OutputWriter(net, output_path=None, log_variables=lv)
+    ow = OutputWriter(net, output_path=None)
+    for l in case["log"]:
+        if l["idx"] is None:
+            ow.log_variable(l["t"], l["c"])
+        else:
+            ow.log_variable(l["t"], l["c"], index=labels(l))
+    return ow
+
+
 def _batch_prediction(req):
     """first selection entry the batch reader of the pinned tree cannot serve -> root-cause tag (None: all fine)"""
     seen = set()
@@ -390,31 +428,17 @@ def check(case):
             else:
                 ConstControl(net, c["et"], c["var"], element_index=idx, profile_name=names, data_source=ds,
                              scale_factor=c["scale"], **kw)
-        if case["log_mode"] == "default":
-            ow = OutputWriter(net, output_path=None)
-        elif case["log_mode"] == "ctor":
-            lv = []
-            for l in case["log"]:
-                if l["idx"] is None:
-                    lv.append((l["t"], l["c"]))
-                else:
-                    labels = maps["bus"] if l["t"] == "res_bus" else maps.get(l["t"][4:], [])
-                    lv.append((l["t"], l["c"], [labels[k] for k in l["idx"]]))
-            ow = OutputWriter(net, output_path=None, log_variables=lv)
-        else:
-            ow = OutputWriter(net, output_path=None)
-            for l in case["log"]:
-                if l["idx"] is None:
-                    ow.log_variable(l["t"], l["c"])
-                else:
-                    labels = maps["bus"] if l["t"] == "res_bus" else maps.get(l["t"][4:], [])
-                    ow.log_variable(l["t"], l["c"], index=[labels[k] for k in l["idx"]])
+    try:
+        with silence():
+            ow = _make_output_writer(OutputWriter, net, case, maps)
+    except Exception as e:
+        res.fail("exc/output-writer-setup/%s" % exc_sig(e), error=repr(e)[:300], log=case["log"], log_mode=case["log_mode"])
+        return res
     rec = _check_controller_recyclability(net) if case["recycle"] is None else False
     recycled = isinstance(rec, dict)
-    # log_variable() stores 5-tuples, which the batch eligibility test (len(entry) > 2) rejects like index subsets
+    # batch eligibility as run_timeseries decides it: only 2-tuples of bus/branch tables, no transformer profile, AC
     batch_expected = (recycled and case["run"] == "runpp" and not rec["trafo"]
-                      and (case["log_mode"] != "method" or not case["log"])
-                      and all(t in BATCH_TABLES and idx is None for t, c, idx in req))
+                      and all(len(o) == 2 and o[0] in BATCH_TABLES for o in ow.log_variables))
     line_ctrl = any(c["et"] == "line" for c in case["ctrls"])
     mode = "batch" if batch_expected else ("recycle" if recycled else "plain")
     res.label("mode:" + mode)
